@@ -197,6 +197,7 @@ class Attack:
         self.rooms = {}
         self.out_cb = {}        # (T, ns) -> (id, token)
         self.cb_seen = []
+        self.undecodable_seq = False
 
     def witness(self, extra=None):
         w = {'case_index': self.index, 'kind': self.kind,
@@ -273,6 +274,23 @@ class Attack:
         elif mode < 0.33 and ser == 'default':
             sendf = [long_run_frames(rng)]
             ctx.count('long_run_frames')
+        elif mode < 0.39 and ser == 'default':
+            # a binary event, complete with all the attachments it declares,
+            # in which one placeholder refers to an attachment that does not
+            # exist: it cannot be decoded, no handler may see it
+            mine = [ns for (T, ns) in r.issued if T == self.OT] or ['/']
+            natt = rng.choice([1, 1, 2, 3])
+            blobs = [bytes([97 + i]) * 4 for i in range(natt)]
+            data = [rng.choice(S.EVENT_POOL), {'a': blobs[0]}] + blobs[1:]
+            text, atts = R.encode(R.EVENT, rng.choice(mine),
+                                  rng.choice([None, 3]), data)
+            victim = rng.randrange(natt)
+            bad = rng.choice([natt, natt + 1, 10 ** 6, -natt - 1, -10 ** 6])
+            text = text.replace('"num":%d' % victim, '"num":%d' % bad, 1)
+            sendf = [text] + atts
+            self.undecodable_seq = r.T[self.OT].eio_sid not in \
+                r.sio._binary_packet
+            ctx.count('bad_placeholder_index_packets')
         else:
             sendf = []
             for f in frames:
@@ -338,6 +356,7 @@ class Attack:
             ctx.count('offender_frames')
             if self.judge_offender(res, op) is False:
                 return
+        self.undecodable_seq = False
 
     def judge_offender(self, res, op):
         ctx = self.ctx
@@ -358,6 +377,14 @@ class Attack:
                     self.fail('offender frame invoked an event handler with '
                               'session id %r, which is not a session of the '
                               'offender (namespace %r)' % (e[4], e[2]),
+                              {'frame': repr(op[2])[:400], 'event': e})
+                    return False
+                if e[1] == 'event' and getattr(self, 'undecodable_seq',
+                                               False):
+                    self.fail('a handler was invoked for a binary event in '
+                              'which a placeholder refers to an attachment '
+                              'that does not exist (handler saw %r)' % (
+                                  e[5],),
                               {'frame': repr(op[2])[:400], 'event': e})
                     return False
                 if e[1] == 'event' and isinstance(op[2], str) and \
@@ -558,6 +585,7 @@ def run(ctx):
     ctx.require('fresh_connect_probes', 20)
     ctx.require('frames_allocation_checked', 300)
     ctx.require('derivability_checks', 20)
+    ctx.require('bad_placeholder_index_packets', 20)
     k = 0
     while not ctx.out_of_time() and not ctx.too_many_violations():
         traced = k % 3 == 0
